@@ -25,7 +25,7 @@ LEVEL_NOTE = ("Trusted: PyYAML, the reference evaluator. Domain: values without 
 RULE = ("case = DCOP description + agents + load mode; non-trivial = >=2 variables, >=1 constraint of arity>=2 and "
         ">=1 agent with a specific route or hosting cost; distinct by sha1(case)")
 ASSUMPTIONS = ["temporary files are written in the worker's private temp directory"]
-BUDGET = {"quick": {"workers": 4, "examples": 300, "seconds": 40},
+BUDGET = {"quick": {"workers": 8, "examples": 500, "seconds": 40},
           "thorough": {"workers": 16, "examples": 3000, "seconds": 480}}
 
 MODES = ["string", "file_str", "file_list1", "file_split"]
